@@ -170,8 +170,9 @@ example : (Gen.Lane.noLaneHandlers.map fun h => (h.arch, h.name, h.setVCC)).cont
 /-! ## Regenerated obligations about the hand-transcribed parts -/
 
 /-- **The hand-transcribed functions are the audited ones** (regenerated): the hash of the normalised source of
-    both `runVREADFIRSTLANEB32`, of `NewSDWAState` and of the three `sdwaState` methods equals the value recorded
-    when `goReadFirstLane` / `LaneHandler.sdwaWrap` were written. An edit to one of them breaks this obligation
+    both `runVREADFIRSTLANEB32`, of `NewSDWAState`, of the three `sdwaState` methods and of the three `amd/bitops`
+    functions the bodies call (`C06.Go.extractBitsU64/U32`, `signExt`) equals the value recorded when
+    `goReadFirstLane` / `LaneHandler.sdwaWrap` / `C06.Go.*` were written. An edit to one of them breaks this obligation
     (and must be followed by a new look at the model), not only the sampled correspondence. -/
 theorem hand_modelled_unchanged :
     Gen.Lane.handModelled =
@@ -180,9 +181,12 @@ theorem hand_modelled_unchanged :
        ("gcn3", "", "NewSDWAState", "e7a85b3e59070175"),
        ("gcn3", "sdwaState", "Inst", "ccf2f1eed807d199"),
        ("gcn3", "sdwaState", "ReadOperand", "6fe0fd9c0e57e50b"),
-       ("gcn3", "sdwaState", "WriteOperand", "ff962901066be903")] := by decide
+       ("gcn3", "sdwaState", "WriteOperand", "ff962901066be903"),
+       ("bitops", "", "ExtractBitsFromU64", "06f59f25de72c634"),
+       ("bitops", "", "ExtractBitsFromU32", "10cd08addbf2c5d3"),
+       ("bitops", "", "SignExt", "651005404d93159f")] := by decide
 
-example : Gen.Lane.handModelled.length = 6 := by decide
+example : Gen.Lane.handModelled.length = 9 := by decide
 
 /-- **Both VOP2 dispatchers apply the wrapper exactly as `vop2Handler` says** (regenerated): the statements in
     front of the opcode switch are `inst := state.Inst()` and `if inst.IsSdwa { state = NewSDWAState(state) }`. -/
